@@ -23,6 +23,8 @@ RULE = ('Hypothesis-generated (a) handler class hierarchies (2-6 classes decorat
         'called exactly once on the mapped method with identical args/kwargs, removed/added during the frame 0 '
         'or 1 times, nobody else; is_handler == model after every step. '
         'In ~15% of the cases every handler exists in 64-150 copies that are registered / removed ONE AT A TIME with a dispatch after each (the listener count passes through every value). '
+        ''
+        'Keyword names come from a pool of plausible parameter names (listener, handler, method, args, kwargs, ...). '
         'Non-trivial = a dispatch with >= 2 '
         'listeners and non-empty args or kwargs after at least one re-registration or removal. Distinct = sha1 '
         'of canonical JSON.')
